@@ -51,7 +51,7 @@ func enumC03(emit func(c any) bool) {
 		// the header matrix: whole-buffer entry points and the pull decoder
 		for _, h := range hostileHeaders(format) {
 			for _, entry := range []string{"parse", "decoder", "write"} {
-				c := &C03Case{Format: format, Data: h, Entry: entry, Kind: "enum_header_matrix", BufSize: 64}
+				c := &C03Case{Format: format, Data: h, Entry: entry, Kind: "enum_header_matrix", BufSize: 64, Again: &C03Again{Data: h}}
 				if !emit(c) {
 					return
 				}
@@ -62,6 +62,10 @@ func enumC03(emit func(c any) bool) {
 				c := &C03Case{Format: format, Data: []byte(h), Entry: entry, Kind: "enum_hostile", BufSize: 2}
 				if len(h) > 1 {
 					c.Cuts = []int{1}
+				}
+				if entry != "parsereader" {
+					// the same instance is used again afterwards
+					c.Again = &C03Again{Data: []byte(c02SmallDocs[format][0])}
 				}
 				if !emit(c) {
 					return
@@ -207,6 +211,55 @@ func enumC05(emit func(c any) bool) {
 		doc := append(append([]byte{0xa1}, k...), 0x01)
 		if !emit(&DocCase{Doc: doc, Note: "enum non-text key"}) {
 			return
+		}
+	}
+	// every tag number of the direct, one-byte and two-byte widths in front of a
+	// small item at top level; the registered tag numbers (RFC 7049 2.4 and the IANA
+	// registry, incl. 55799 "self-described CBOR") and the width boundaries in all
+	// five widths, in front of three payloads, in every context
+	for n := 0; n < 65536; n++ {
+		for _, w := range widths {
+			if w > 2 || !widthHolds(w, uint64(n)) {
+				continue
+			}
+			if !emit(&DocCase{Doc: append(cborHead(6, uint64(n), w), 0x05), Note: "enum every tag"}) {
+				return
+			}
+		}
+	}
+	registered := []uint64{0, 1, 2, 3, 4, 5, 16, 17, 18, 19, 21, 22, 23, 24, 25, 26, 27, 28, 29, 30, 32, 33, 34, 35, 36, 37, 38, 61, 96, 97, 98, 100, 255, 256, 258, 260, 261, 1001, 1004, 55799, 55800, 65535, 65536, 15309736, 1<<32 - 1, 1 << 32, 1<<63 - 1, math.MaxUint64}
+	for _, n := range registered {
+		for _, w := range widths {
+			if !widthHolds(w, n) {
+				continue
+			}
+			for _, payload := range [][]byte{{0x05}, {0x61, 'a'}, {0x80}, {0xa0}, {0x41, 0x00}, {0xfb, 0x3f, 0xf0, 0, 0, 0, 0, 0, 0}} {
+				for _, doc := range wrap(append(cborHead(6, n, w), payload...)) {
+					if !emit(&DocCase{Doc: doc, Note: "enum registered tags"}) {
+						return
+					}
+				}
+			}
+		}
+	}
+	// every half float bit pattern and every simple value
+	for n := 0; n < 65536; n++ {
+		if !emit(&DocCase{Doc: []byte{0xf9, byte(n >> 8), byte(n)}, Note: "enum every half float"}) {
+			return
+		}
+	}
+	for n := 0; n < 256; n++ {
+		for _, doc := range wrap([]byte{0xf8, byte(n)}) {
+			if !emit(&DocCase{Doc: doc, Note: "enum every simple value"}) {
+				return
+			}
+		}
+		if n < 24 {
+			for _, doc := range wrap([]byte{0xe0 | byte(n)}) {
+				if !emit(&DocCase{Doc: doc, Note: "enum every simple value"}) {
+					return
+				}
+			}
 		}
 	}
 }
